@@ -82,6 +82,45 @@ def process_level(res, tier):
                 break
     res.bounds_done.append("process level: %d runs (RF model x steps per Ts / per revolution x output cadence x modulation), /RFKicks rows and waveform" % len(cases))
 
+    # noise (with and without a modulation next to it): the values are random, the bookkeeping is not - one row per executed step, a quantity without
+    # noise keeps its noise-free value in every row, a quantity with noise does not
+    ncases = [(rf, outstep, pn, an, mod, nsteps) for rf in ("linear", "sin") for outstep in (0, 1, 5) for pn, an in ((0.5, 0), (0, 0.01), (0.5, 0.01)) for mod in (0, 1)
+              for nsteps in ((12, 40) if vlib.deep(tier) else (12,))]
+
+    def ndo(c):
+        rf, outstep, pn, an, mod, nsteps = c
+        a = ["-s", 16, "-T", nsteps / steps_per_ts, "-n", outstep, "-G", 0, "-f", fs, "--padding", 2, "--LinearRF", "true" if rf == "linear" else "false", "-N", steps_per_ts,
+             "--RFPhaseSpread", pn, "--RFAmplitudeSpread", an] + (["--RFPhaseModAmplitude", 1.0, "--RFPhaseModFrequency", 4e4] if mod else [])
+        r = pl.run(exe, a, wd, out="n_%s_%d_%g_%g_%d_%d.h5" % c)
+        doc = pl.h5(r["h5"], maxv=20000) if r["rc"] == 0 else None
+        for ext in ("", ".cfg", ".log"):
+            try:
+                os.remove(r["h5"] + ext)
+            except OSError:
+                pass
+        return c, r, doc
+    for c, r, doc in pl.pmap(ndo, ncases):
+        rf, outstep, pn, an, mod, nsteps = c
+        case = "process rf=%s outstep=%d phase-noise=%gdeg amplitude-noise=%g modulation=%s steps=%d" % (rf, outstep, pn, an, "on" if mod else "off", nsteps)
+        rp = dict(cmd=r["cmd"])
+        if doc is None or "error" in doc:
+            res.violate("C19/process/run-failed", case, "rc=%s %s" % (r["rc"], r["log"][-200:]), replay=rp)
+            continue
+        rows = pl.rows(doc, "/RFKicks/data") if "/RFKicks/data" in doc["datasets"] else []
+        res.eval(case, pl.chash(case, len(rows)), trivial=False)
+        key = "C19/process/%s/noise" % rf
+        if len(rows) != nsteps:
+            res.violate(key + "/record-count/outstep%s" % ("=0" if outstep == 0 else ">0"), case, "/RFKicks/data has %d rows for %d executed steps" % (len(rows), nsteps), replay=rp)
+            continue
+        phases, ampls = set(x[0] for x in rows), set(x[1] for x in rows)
+        if (an == 0 and ampls != {1.0}) or (an > 0 and len(ampls) < nsteps // 2):
+            res.violate(key + "/amplitude-column", case, "amplitude noise %g: %d distinct recorded amplitudes in %d rows (%s...)" % (an, len(ampls), nsteps, sorted(ampls)[:3]), replay=rp)
+        if (pn == 0 and not mod and len(phases) != 1) or (pn > 0 and len(phases) < nsteps // 2):
+            res.violate(key + "/phase-column", case, "phase noise %g deg, modulation %s: %d distinct recorded phases in %d rows" % (pn, "on" if mod else "off", len(phases), nsteps), replay=rp)
+        if an > 0 and not all(abs(x - 1) < 10 * an for x in ampls):
+            res.violate(key + "/amplitude-scale", case, "amplitude noise of relative spread %g: recorded amplitudes reach %g" % (an, max(ampls, key=lambda x: abs(x - 1))), replay=rp)
+    res.bounds_done.append("process level, noise: %d runs (RF model x cadence x {phase, amplitude, both} x modulation on/off): one row per step, noise-free columns constant, noisy ones not" % len(ncases))
+
 
 def run(res, tier):
     res.assumptions += [
